@@ -27,3 +27,5 @@ mod c21_revertible;
 mod c22_balances;
 #[cfg(kani)]
 mod c45_glv;
+#[cfg(kani)]
+mod c18_roles;
